@@ -399,6 +399,22 @@ func c01Run(c *Ctx) {
 		}
 		c.Sample(cs.Gen, cs.Src)
 	}
+	// 8b. parentheses around literal operands of every operator never change what is printed
+	plits := []string{"nil", True(), False(), "0", "1", "2.5", `""`, `"a"`, `"5"`, `"\u09e6\u09eb"`, "[]", "[1]", "({k: 1})"}
+	for _, a := range plits {
+		for _, op := range []string{"!", "-", "~"} {
+			if c.Mine() {
+				c01Judge(c, &Case{Gen: "paren-print-equivalence", Src: Print(op+" "+a) + "\n" + Print(op+" "+op+" "+a) + "\n", Alt: []string{Print(op+"("+a+")") + "\n" + Print(op+"("+op+"("+a+"))") + "\n"}})
+			}
+		}
+		for _, b := range plits {
+			for _, op := range c01BinOps {
+				if c.Mine() {
+					c01Judge(c, &Case{Gen: "paren-print-equivalence", Src: Print(a+" "+op+" "+b) + "\n", Alt: []string{Print("("+a+") "+op+" ("+b+")") + "\n"}})
+				}
+			}
+		}
+	}
 	// 9. ladder-consistent parentheses never change what a program prints
 	r = c.Rand("printeq")
 	n = c.N(6000, 150000)
